@@ -1,0 +1,19 @@
+//go:build verif
+
+package regex
+
+import "github.com/coreruleset/crs-toolchain/v2/utils"
+
+// regex.IsEscaped is the same function as utils.IsEscaped: same contract.
+//@ contract IsEscaped
+//@   tags C04 C19
+//@   opt termination C19
+//@   results r
+//@   requires 0 <= position && position <= len(input)
+//@   ensures r == utils.SpecEscaped(input, position)
+//@   loop 0 invariant -1 <= backtrackIndex && backtrackIndex <= position-1
+//@   loop 0 invariant escapeCounter >= 0
+//@   loop 0 invariant utils.SpecBsRun(input, position) == escapeCounter + utils.SpecBsRun(input, backtrackIndex+1)
+//@   loop 0 decreases backtrackIndex + 1
+
+var _ = utils.SpecEscaped
